@@ -806,7 +806,135 @@ class Handles(Suite):
         return case["tree"]["n"] >= 3
 
 
-SUITES = [History(), Collections(), Accessors(), Handles()]
+ADJ_KINDS = ["tree", "copy", "paths", "branches", "node-branch", "tree-segments", "branch-segments", "subpath", "subbranch"]
+
+
+def observe_adjacency(o):
+    """what `get_adjacency_matrix` of a tree / standalone table / view says: shape and the non-zero cells (row, col, value)"""
+    try:
+        m = o.get_adjacency_matrix()
+        d = np.asarray(m.toarray())
+        return {"shape": [int(q) for q in d.shape], "cells": sorted([int(i), int(j), int(d[i, j])] for i, j in zip(*np.nonzero(d)))}
+    except Exception as e:  # noqa: BLE001 - the oracle reports it with the object it came from
+        return {"raises": f"{type(e).__name__}: {str(e)[:120]}"}
+
+
+class Adjacency(Suite):
+    """`SWCLike.get_adjacency_matrix` asked on every kind of object that inherits it: the tree and its copy (cells = the (parent, child) pairs), and
+    every window onto the tree - root-to-tip paths, branches, the branch through a node, segments of the tree and of a branch, paths / branches
+    over an arbitrary run of an ancestor chain (NOT starting at the root, NOT over rows 0..k-1) - whose own numbering is its positions 0..k-1
+    (documented: `Path.id` / `Path.pid`), so its matrix is (k, k) with the chain of its consecutive node pairs; the detached copy of the same
+    window has equal content, hence the same matrix; and a write of a non-topological attribute through a node handle changes none of them"""
+    name = "c09.adjacency"
+
+    def cases(self, rng, tier, widen):
+        out = []
+        big = tier == "thorough" or widen
+        k = rng.randrange(len(gen.SHAPES))
+        for n in [2, 3, 5, 8, 13] + ([30, 80] if big else []):
+            for _ in range(4 if not big else 9):
+                shape = gen.pick_shape(rng, k)
+                if shape == "single":       # (a single node has no window with an edge; it is covered by n = 2 … of the other shapes)
+                    k += 1; shape = gen.pick_shape(rng, k)
+                pids = gen.renumber_root0(rng, gen.parents_sorted(rng, n, shape))
+                nn = len(pids)
+                t = {"n": nn, "pids": pids, "types": [1] + [rng.choice([2, 3, 4]) for _ in range(nn - 1)],
+                     "xyz": [[float(rng.randint(-30, 30)) for _ in range(3)] for _ in range(nn)], "r": [float(rng.randint(1, 9)) for _ in range(nn)]}
+                decorate(rng, t, k); k += 1
+                # runs of ancestor chains: from a node upwards, cut anywhere (a path of the tree that starts where it likes)
+                runs = []
+                for _ in range(4):
+                    a = rng.randrange(nn)
+                    ch = [a]
+                    while pids[ch[-1]] >= 0:
+                        ch.append(pids[ch[-1]])
+                    ch.reverse()
+                    lo = rng.randrange(len(ch))
+                    runs.append(ch[lo: rng.randint(lo + 1, len(ch))])
+                for kind in ADJ_KINDS:
+                    out.append({"class": "adjacency/" + kind + ("/names" if t["names"] else ""), "tree": t, "kind": kind, "runs": runs,
+                                "wcol": rng.choice(["x", "y", "z", "r", "type"]), "wrow": rng.randrange(nn), "wval": rng.randint(40, 90)})
+        return out
+
+    def run(self, case):
+        from swcgeom.core import Branch, Path
+
+        t = build_tree(case["tree"])
+        kind = case["kind"]
+        if kind in ("tree", "copy"):
+            objs = [t if kind == "tree" else t.copy()]
+        elif kind == "paths":
+            objs = list(t.get_paths())
+        elif kind == "branches":
+            objs = list(t.get_branches())
+        elif kind == "node-branch":
+            objs = [t.node(i).branch() for i in range(len(t))]
+        elif kind == "tree-segments":
+            objs = list(t.get_segments())
+        elif kind == "branch-segments":
+            objs = [s for b in t.get_branches() for s in b.get_segments()]
+        elif kind == "subpath":
+            objs = [Path(t, np.array(r, dtype=np.int32)) for r in case["runs"]]
+        else:
+            objs = [Branch(t, np.array(r, dtype=np.int32)) for r in case["runs"]]
+        obs = []
+        for o in objs:
+            isview = hasattr(o, "origin_id")
+            e = {"len": int(len(o)), "rows": [int(v) for v in (o.origin_id() if isview else o.id())], "view": isview, "first": observe_adjacency(o)}
+            if isview:
+                e["ids"] = [[int(v) for v in o.id()], [int(v) for v in o.pid()]]
+                e["detached"] = observe_adjacency(o.detach())
+            obs.append(e)
+        # a write of a non-topological attribute through a node handle of the tree, then the same objects asked again
+        setattr(t.node(case["wrow"]), case["wcol"], case["wval"])
+        for o, e in zip(objs, obs):
+            e["again"] = observe_adjacency(o)
+        return {"obs": obs}
+
+    def oracle(self, case, res):
+        t = case["tree"]
+        pids = t["pids"]
+        if "exc" in res:
+            return [("adjacency-raises", f"{case['kind']}: {res['exc']}: {res.get('msg')} (pids={pids})")]
+        out = []
+        for e in res.get("obs") or []:
+            if not isinstance(e, dict):
+                out.append(("adjacency-raises", f"{case['kind']}: malformed observation {e!r}")); break
+            k, rows = e.get("len"), e.get("rows")
+            who = f"{case['kind']} over nodes {rows} of the tree pids={pids}" + (f" with column names {t['names']}" if t.get("names") else "")
+            if e.get("view"):
+                if e.get("ids") != [list(range(k)), list(range(-1, k - 1))]:
+                    out.append(("view-read", f"{who}: id() / pid() are {e.get('ids')}, documented as its positions 0..{k - 1} / -1..{k - 2}")); break
+                want = {"shape": [k, k], "cells": [[j, j + 1, 1] for j in range(k - 1)]}
+                what = "the chain of its consecutive node pairs (in its own numbering id() / pid())"
+            else:
+                want = {"shape": [t["n"], t["n"]], "cells": sorted([p, i, 1] for i, p in enumerate(pids) if p >= 0)}
+                what = "the (parent, child) pairs of the tree"
+            bad = None
+            for when in ("first", "again") + (("detached",) if e.get("view") else ()):
+                got = e.get(when)
+                label = {"first": "", "again": f" (asked again after {case['wcol']} of node {case['wrow']} was written through its handle)",
+                         "detached": " of its DETACHED copy"}[when]
+                if not isinstance(got, dict) or "raises" in got:
+                    why = got.get("raises") if isinstance(got, dict) else f"malformed observation {got!r}"
+                    bad = ("adjacency-raises", f"get_adjacency_matrix{label} of a {who}: {why}")
+                elif got.get("shape") != want["shape"]:
+                    bad = ("adjacency-shape", f"get_adjacency_matrix{label} of a {who} has shape {got.get('shape')}, it has {k} nodes")
+                elif got.get("cells") != want["cells"]:
+                    key = "adjacency-detached-differs" if when == "detached" else "adjacency-edges"
+                    bad = (key, f"get_adjacency_matrix{label} of a {who} has the cells (row, col, value) {got.get('cells')}, {what} are {want['cells']}")
+                if bad:
+                    break
+            if bad:
+                out.append(bad); break
+        return out[:3]
+
+    def nontrivial(self, case, res):
+        # a window that is not over the rows 0..k-1 of its owner
+        return any(e.get("view") and e.get("len", 0) >= 2 and e.get("rows") != list(range(e["len"])) for e in res.get("obs") or [] if isinstance(e, dict))
+
+
+SUITES = [History(), Collections(), Accessors(), Handles(), Adjacency()]
 TECHNIQUE = ("Lean 4 theorems about a heap model of owners, arrays and index-holding views (a view's read is the owner's current content at its indices after any "
              "history; a tree-node write lands in the owner and is seen by every view; copy / detach allocate fresh arrays, so for every later interleaving of "
              "writes neither side sees the other's; segment construction) + differential correspondence on random operation histories + np.shares_memory oracle")
